@@ -55,13 +55,16 @@ fn exec_bigrot(case: &Value) -> Value {
     let q = |x: f32| -> i64 { let v = (x as f64 * QS).round(); if v.is_finite() { v.clamp(-2e9, 2e9) as i64 } else { 2_000_000_000 } };
     let mut e = case.clone();
     let r = guard(|| {
-        let a = degs(gi(case, "deg") as f32);
+        // (the angle in degrees, or - "rad": 1 - in radians)
+        let a = if case.get("rad").and_then(|v| v.as_i64()).unwrap_or(0) == 1 { re::math::angle::rads(gi(case, "deg") as f32) } else { degs(gi(case, "deg") as f32) };
         let m: M4 = match gs(case, "axis") { "x" => rotate_x(a), "y" => rotate_y(a), _ => rotate_z(a) };
+        // sine and cosine of the very same Angle value
+        let (sn, cs) = a.sin_cos();
         let tr = m.transpose();
         let prod = m.compose(&tr.to());
         let inv = m.inverse();
         let m3 = |m: &M4| -> Vec<Vec<i64>> { (0..3).map(|i| (0..3).map(|j| q(m.0[i][j])).collect()).collect() };
-        json!({"q": m3(&prod), "det": q(m.determinant()), "inv": m3(&inv.to()), "tr": (0..3).map(|i| (0..3).map(|j| q(tr.0[i][j])).collect::<Vec<_>>()).collect::<Vec<_>>()})
+        json!({"m": m3(&m), "s": q(sn), "c": q(cs), "q": m3(&prod), "det": q(m.determinant()), "inv": m3(&inv.to()), "tr": (0..3).map(|i| (0..3).map(|j| q(tr.0[i][j])).collect::<Vec<_>>()).collect::<Vec<_>>()})
     });
     let o = e.as_object_mut().unwrap();
     match r {
@@ -73,7 +76,9 @@ fn exec_bigrot(case: &Value) -> Value {
         }
         None => {
             let z = json!([[0, 0, 0], [0, 0, 0], [0, 0, 0]]);
-            for k in ["q", "inv", "tr"] {
+            o.insert("s".into(), json!(0));
+            o.insert("c".into(), json!(0));
+            for k in ["m", "q", "inv", "tr"] {
                 o.insert(k.into(), z.clone());
             }
             o.insert("det".into(), json!(0));
@@ -83,9 +88,51 @@ fn exec_bigrot(case: &Value) -> Value {
     e
 }
 
+/// orient_y / orient_z on lattice vectors at independent power-of-two scales: the axis A * 2^-g,
+/// the reference direction X * 2^-h (X possibly all but parallel to A: 1000 A + d).
+fn exec_orient(case: &Value) -> Value {
+    const QS: f64 = 16384.0;
+    let mut e = case.clone();
+    let iv = |k: &str| -> Vec<f32> { case[k].as_array().unwrap().iter().map(|x| x.as_i64().unwrap() as f32).collect() };
+    let (a, x) = (iv("A"), iv("X"));
+    let (g, h) = (gi(case, "g") as i32, gi(case, "h") as i32);
+    let (ka, kx) = (2f32.powi(-g), 2f32.powi(-h));
+    let r = guard(|| {
+        let av = vec3(a[0] * ka, a[1] * ka, a[2] * ka);
+        let xv = vec3(x[0] * kx, x[1] * kx, x[2] * kx);
+        let m: M4 = if gs(case, "which") == "y" { orient_y(av, xv) } else { orient_z(av, xv) };
+        let col = |c: usize, k: f64| -> Vec<i64> { (0..3).map(|r| { let v = (m.0[r][c] as f64 * k).round(); if v.is_finite() { v.clamp(-2e9, 2e9) as i64 } else { 2_000_000_000 } }).collect() };
+        let back = 2f64.powi(g) * 1024.0;
+        // main: the column of the given axis; ucol: the derived unit axis; tcol: the third one (new_x)
+        let (main, ucol) = if gs(case, "which") == "y" { (col(1, back), col(2, QS)) } else { (col(2, back), col(1, QS)) };
+        json!({"main": main, "ucol": ucol, "tcol": col(0, back), "last": (0..4).map(|j| (m.0[3][j] as f64 * 1024.0).round() as i64).collect::<Vec<_>>(),
+               "tl": (0..3).map(|r| (m.0[r][3] as f64 * 1024.0).round() as i64).collect::<Vec<_>>()})
+    });
+    let o = e.as_object_mut().unwrap();
+    match r {
+        Some(v) => {
+            for (k, x) in v.as_object().unwrap() {
+                o.insert(k.clone(), x.clone());
+            }
+            o.insert("panic".into(), json!(0));
+        }
+        None => {
+            for k in ["main", "ucol", "tcol", "tl"] {
+                o.insert(k.into(), json!([0, 0, 0]));
+            }
+            o.insert("last".into(), json!([0, 0, 0, 0]));
+            o.insert("panic".into(), json!(1));
+        }
+    }
+    e
+}
+
 pub fn exec(case: &Value) -> Value {
     if case.get("op").and_then(|v| v.as_str()) == Some("bigrot") {
         return exec_bigrot(case);
+    }
+    if case.get("op").and_then(|v| v.as_str()) == Some("orient") {
+        return exec_orient(case);
     }
     let path = case["path"].as_array().unwrap();
     let mut e = case.clone();
@@ -172,6 +219,24 @@ pub fn gen(args: &Args, out: &mut dyn Write) {
         for axis in ["x", "y", "z"] {
             writeln!(out, "{}", json!({"k": format!("b{}-{}{}", args.seed, j, axis), "op": "bigrot", "axis": axis, "deg": deg, "path": []})).unwrap();
         }
+    }
+    for (j, rad) in [1000i64, -10_000, 100_000, 31_416, 2_000_000, -777].iter().enumerate() {
+        for axis in ["x", "y", "z"] {
+            writeln!(out, "{}", json!({"k": format!("br{}-{}{}", args.seed, j, axis), "op": "bigrot", "axis": axis, "deg": rad, "rad": 1, "path": []})).unwrap();
+        }
+    }
+    // orient_y / orient_z: every direction of a small lattice as the axis, the reference direction anywhere
+    // but along it (also within a fraction of a degree of it), both at scales from 2^-9 to 2^9
+    for i in 0..(if args.tier == "thorough" { 40_000 } else { 1_500 }) {
+        let a = [rng.range(-9, 9), rng.range(-9, 9), rng.range(-9, 9)];
+        let d = [rng.range(-9, 9), rng.range(-9, 9), rng.range(-9, 9)];
+        let cr = [d[1] * a[2] - d[2] * a[1], d[2] * a[0] - d[0] * a[2], d[0] * a[1] - d[1] * a[0]];
+        if cr == [0, 0, 0] {
+            continue;
+        }
+        let x = if i % 3 == 0 { let k = *rng.pick(&[1000i64, -1000, 300]); [k * a[0] + d[0], k * a[1] + d[1], k * a[2] + d[2]] } else { d };
+        writeln!(out, "{}", json!({"k": format!("o{}-{}", args.seed, i), "op": "orient", "which": if i % 2 == 0 { "y" } else { "z" },
+                                   "A": a, "X": x, "g": rng.range(-9, 9), "h": rng.range(-9, 9), "path": []})).unwrap();
     }
     for i in 0..n {
         let len = rng.range(1, 3);
